@@ -64,6 +64,60 @@ theorem lineageModel_layout :
     (tableOf "LineageModel").getstate.drop 22 = (tableOf "Model").getstate
     ∧ (tableOf "LineageModel").superSliceOk = true := by decide +kernel
 
+/-! ### cell states: `__reduce__ = (cls, args)` and `cls(*args)` -/
+
+theorem zip_find_target {V : Type} (o : Obj V) (a : String) :
+    ∀ (ps rs : List String), (ps.zip rs).all (fun pa => initTarget pa.1 == pa.2) = true → ps.length = rs.length → a ∈ rs →
+      ((ps.zip (rs.map o)).find? (fun pa => initTarget pa.1 == a)).map (·.2) = some (o a) := by
+  intro ps
+  induction ps with
+  | nil => intro rs _ hl ha; cases rs with
+    | nil => cases ha
+    | cons r rs => simp at hl
+  | cons p ps ih =>
+    intro rs hall hl ha
+    cases rs with
+    | nil => cases ha
+    | cons r rs =>
+      simp only [List.zip_cons_cons, List.all_cons, Bool.and_eq_true, beq_iff_eq] at hall
+      simp only [List.map_cons, List.zip_cons_cons, List.find?_cons]
+      by_cases hpa : initTarget p = a
+      · simp only [hpa, beq_self_eq_true]
+        rw [← hpa, hall.1]; rfl
+      · have hne : (initTarget p == a) = false := by simpa using hpa
+        simp only [hne]
+        have har : a ∈ rs := by
+          rcases List.mem_cons.mp ha with h | h
+          · exact absurd (hall.1.trans h.symm) hpa
+          · exact h
+        exact ih rs hall.2 (by simpa using hl) har
+
+/-- **a cell state restored from its pickle has every persistent attribute of the original** (whenever the regenerated
+`__reduce__` / `__init__` table is consistent). -/
+theorem reduce_roundtrip {V : Type} (t : ReduceTable) (h : reduceOk t = true) (o fresh : Obj V) (a : String)
+    (ha : a ∈ reducePersistent t) : construct t fresh (dumpReduce t o) a = o a := by
+  unfold reduceOk at h
+  simp only [Bool.and_eq_true, beq_iff_eq, List.all_eq_true] at h
+  obtain ⟨⟨⟨hlen, hzip⟩, hall⟩, _⟩ := h
+  have hmem : a ∈ t.reduceArgs := by simpa using hall a ha
+  have hz : (t.initParams.zip t.reduceArgs).all (fun pa => initTarget pa.1 == pa.2) = true := by
+    simp only [List.all_eq_true, beq_iff_eq]; exact hzip
+  have := zip_find_target o a t.initParams t.reduceArgs hz hlen.symm hmem
+  unfold construct dumpReduce
+  cases hf : (t.initParams.zip (t.reduceArgs.map o)).find? (fun pa => initTarget pa.1 == a) with
+  | none => rw [hf] at this; cases this
+  | some pa => rw [hf] at this; simpa using this
+
+def reduceTableOf (cls : String) : ReduceTable :=
+  (reduceTables.find? (fun t => t.cls == cls)).getD
+    { cls := "", declared := ["missing"], reduceArgs := [], initParams := ["missing"], getstate := ["missing"] }
+
+/-- the regenerated obligation for lineage cell states. -/
+theorem reduceOk_LineageVolumeCellState : reduceOk (reduceTableOf "LineageVolumeCellState") = true := by decide +kernel
+
+example : "dead" ∈ reducePersistent (reduceTableOf "LineageVolumeCellState") := by decide +kernel
+example : "initial_time" ∈ reducePersistent (reduceTableOf "LineageVolumeCellState") := by decide +kernel
+
 /-! ### expression trees: `restore_binary_term` rebuilds the same term list in order -/
 
 /-- `BinaryTerm.__reduce__ = (restore_binary_term, (terms_list, cls))` and
